@@ -75,15 +75,38 @@ def axis(draw):
     return [x / n for x in a]
 
 
+def nearpole_rotvec(draw, max_angle=PI):  # plain helper taking the draw function
+    """Rotation whose 3-2-1 Euler pitch is within (1e-3, 0.3] rad of a gimbal pole (outside the band)."""
+    psi = draw(fl(-PI, PI))
+    phi = draw(fl(-PI, PI))
+    sg = draw(st.sampled_from([-1.0, 1.0]))
+    delta = 10.0 ** draw(fl(-2.99, -0.5))
+    if draw(st.integers(0, 3)) == 0:
+        delta = 1e-3 * (1.0 + draw(st.sampled_from([1e-3, 1e-2, 0.1, 1.0])))
+    R = ref.euler321_to_R([psi, sg * (PI / 2 - delta), phi])
+    w = ref.log_SO3(R)
+    th = float(np.linalg.norm(w))
+    if th < 1e-9:
+        return [1.0, 0.0, 0.0], 0.0
+    if th > max_angle:
+        th = max_angle * 0.99
+    return [float(x) for x in (w / th)], th
+
+
 @st.composite
 def rotation(draw, strata=("zero", "tiny", "switch", "mid", "nearpi", "pi"), max_angle=2 * PI - 0.05,
-             signs=(1.0, -1.0), shadow=(False, True)):
+             signs=(1, -1), shadow=(False, True)):
+    if "nearpole" in strata and draw(st.integers(0, len(strata) - 1)) == 0:
+        ax, th = nearpole_rotvec(draw, max_angle)
+        return {"axis": ax, "angle": th, "stratum": "nearpole",
+                "sign": int(draw(st.sampled_from(list(signs)))), "shadow": draw(st.sampled_from(list(shadow)))}
+    strata = tuple(x for x in strata if x != "nearpole")
     th, s = draw(angle(strata=strata, max_angle=max_angle))
     return {
         "axis": draw(axis()),
         "angle": th,
         "stratum": s,
-        "sign": draw(st.sampled_from(list(signs))),
+        "sign": int(draw(st.sampled_from(list(signs)))),
         "shadow": draw(st.sampled_from(list(shadow))),
     }
 
@@ -121,14 +144,24 @@ def plane_angle(draw, max_abs=2 * PI - 1e-2):
 # encoding rotation specs into cyecca parameter vectors (harness-side, textbook formulas)
 # --------------------------------------------------------------------------------------
 
+def unit_axis(a):
+    """Axes are stored unit-length by the strategy; re-normalise so that shrinking/rounding of the stored
+    floats can never leave the valid input domain."""
+    a = np.asarray(a, float)
+    n = float(np.linalg.norm(a))
+    if not (n > 1e-6) or not np.all(np.isfinite(a)):
+        return np.array([1.0, 0.0, 0.0])
+    return a / n
+
+
 def rot_R(spec):
-    return ref.rodrigues(spec["axis"], spec["angle"])
+    return ref.rodrigues(unit_axis(spec["axis"]), spec["angle"])
 
 
 def encode_rot(spec, rep):
-    ax, th = spec["axis"], spec["angle"]
+    ax, th = unit_axis(spec["axis"]), spec["angle"]
     if rep == "quat":
-        return list(ref.quat_from_axis_angle(ax, th, spec.get("sign", 1.0)))
+        return list(ref.quat_from_axis_angle(ax, th, 1.0 if spec.get("sign", 1) >= 0 else -1.0))
     if rep == "mrp":
         sh = bool(spec.get("shadow", False))
         r = ref.mrp_from_axis_angle(ax, th, False)
@@ -162,7 +195,7 @@ def euler_in_band(theta, band=1e-3, margin=0.0):
 
 
 @st.composite
-def group_element(draw, layout, rot_strata=("zero", "tiny", "switch", "mid", "nearpi", "pi", "beyond"),
+def group_element(draw, layout, rot_strata=("zero", "tiny", "switch", "mid", "nearpi", "pi", "beyond", "nearpole"),
                   max_angle=2 * PI - 0.05, se2_max=2 * PI - 1e-2, scales=(-3, -2, -1, 0, 0, 0, 1, 2, 3)):
     """Structured description of an element: list of slot specs (JSON-able)."""
     out = []
@@ -199,15 +232,23 @@ def element_stats(spec):
 
 @st.composite
 def algebra_element(draw, alg_layout, rot_strata=("zero", "denormal", "tiny", "switch", "mid", "nearpi", "pi", "beyond"),
-                    max_angle=2 * PI - 0.05, se2_max=2 * PI - 1e-2, scales=(-3, -2, -1, 0, 0, 0, 1, 2, 3)):
+                    max_angle=2 * PI - 0.05, se2_max=2 * PI - 1e-2, scales=(-3, -2, -1, 0, 0, 0, 1, 2, 3),
+                    ang_tiny=False):
     out = []
     for slot in alg_layout:
         if slot[0] == "vec":
             out.append({"vec": draw(vector(slot[1], scales=scales))})
         elif slot[0] == "ang":
-            out.append({"ang": draw(plane_angle(max_abs=se2_max))})
+            if ang_tiny:
+                out.append({"ang": draw(st.sampled_from([0.0, 1e-300, -1e-300, 1e-12, -1e-9, 5e-324]))})
+            else:
+                out.append({"ang": draw(plane_angle(max_abs=se2_max))})
         elif slot[0] == "rotvec":
-            th, s = draw(angle(strata=rot_strata, max_angle=max_angle))
+            if "nearpole" in rot_strata and draw(st.integers(0, len(rot_strata) - 1)) == 0:
+                ax, th = nearpole_rotvec(draw, max_angle)
+                out.append({"axis": ax, "angle": th, "stratum": "nearpole"})
+                continue
+            th, s = draw(angle(strata=tuple(x for x in rot_strata if x != "nearpole"), max_angle=max_angle))
             out.append({"axis": draw(axis()), "angle": th, "stratum": s})
         else:
             raise ValueError(slot)
@@ -222,7 +263,7 @@ def encode_algebra(spec):
         elif "ang" in s:
             p.append(s["ang"])
         else:
-            p += [a * s["angle"] for a in s["axis"]]
+            p += [a * s["angle"] for a in unit_axis(s["axis"])]
     return np.array(p, float)
 
 
